@@ -1253,6 +1253,8 @@ class _CompiledImporter:
 
         else:
             if isinstance(cell_value, float):
-                # the yaml loader produces a float subclass
+                # the yaml loader produces float and int subclasses
                 cell_value = float(cell_value)
+            elif isinstance(cell_value, int) and not isinstance(cell_value, bool):
+                cell_value = int(cell_value)
             return ExcelOpxWrapper.RangeData(address, '', cell_value)
